@@ -26,6 +26,7 @@ import (
 	"go/parser"
 	"go/printer"
 	"go/token"
+	"go/types"
 	"os"
 	"path/filepath"
 	"sort"
@@ -38,23 +39,26 @@ const (
 	simsyncPath = "verif/simrt/simsync"
 	simatomPath = "verif/simrt/simatomic"
 	simrandPath = "verif/simrt/simrand"
+	simiterPath = "verif/simrt/simiter"
 )
 
 type report struct {
-	Files        int            `json:"files"`
-	SyncImports  int            `json:"sync_imports"`
-	GoStmts      []string       `json:"go_statements"`
-	AfterFuncs   []string       `json:"after_funcs"`
-	Sleeps       []string       `json:"sleeps"`
-	Finalizers   []string       `json:"finalizers"`
-	Goscheds     []string       `json:"goscheds"`
-	ChanOps      []string       `json:"chan_ops"`
-	Selects      []string       `json:"selects"`
-	Ranges       []string       `json:"ranges_maybe_chan"`
-	AtomicUsers  []string       `json:"sync_atomic_importers"`
-	RandUsers    []string       `json:"math_rand_importers"`
-	Unhandled    []string       `json:"unhandled"`
-	OtherImports map[string]int `json:"-"`
+	Files         int            `json:"files"`
+	SyncImports   int            `json:"sync_imports"`
+	GoStmts       []string       `json:"go_statements"`
+	AfterFuncs    []string       `json:"after_funcs"`
+	Sleeps        []string       `json:"sleeps"`
+	Finalizers    []string       `json:"finalizers"`
+	Goscheds      []string       `json:"goscheds"`
+	ChanOps       []string       `json:"chan_ops"`
+	Selects       []string       `json:"selects"`
+	Ranges        []string       `json:"ranges_maybe_chan"`
+	AtomicUsers   []string       `json:"sync_atomic_importers"`
+	RandUsers     []string       `json:"math_rand_importers"`
+	MapRanges     []string       `json:"map_ranges"`
+	MapRangesKept []string       `json:"map_ranges_left_alone,omitempty"`
+	Unhandled     []string       `json:"unhandled"`
+	OtherImports  map[string]int `json:"-"`
 }
 
 var rep report
@@ -69,6 +73,7 @@ func main() {
 		fmt.Fprintln(os.Stderr, "usage: simgen -src DIR -dst DIR")
 		os.Exit(2)
 	}
+	findMapRanges(*src)
 	err := filepath.Walk(*src, func(path string, info os.FileInfo, err error) error {
 		if err != nil {
 			return err
@@ -127,7 +132,9 @@ type fileCtx struct {
 	timeName  string
 	rtName    string
 	usesSimrt bool
+	usesIter  bool
 	hasChan   bool
+	path      string
 }
 
 func (c *fileCtx) pos(n ast.Node) string {
@@ -142,7 +149,7 @@ func instrument(path, rel, out string) error {
 		return err
 	}
 	rep.Files++
-	c := &fileCtx{fset: fset, rel: rel}
+	c := &fileCtx{fset: fset, rel: rel, path: path}
 
 	// keep only directive comments: inserted statements carry no positions and
 	// free-floating comments could otherwise be re-attached in odd places
@@ -281,6 +288,9 @@ func instrument(path, rel, out string) error {
 	// 3. imports
 	if c.usesSimrt {
 		addImport(f, "simrt", simrtPath)
+	}
+	if c.usesIter {
+		addImport(f, "simiter", simiterPath)
 	}
 	fixUnusedImport(f, c.timeName, "time")
 	fixUnusedImport(f, c.rtName, "runtime")
@@ -500,6 +510,11 @@ func (c *fileCtx) rewriteStmt(s ast.Stmt) []ast.Stmt {
 		}
 		return inner
 	case *ast.RangeStmt:
+		if mapRangeAt[c.posKey(st)] {
+			if out := c.rewriteMapRange(st); out != nil {
+				return out
+			}
+		}
 		if !c.hasChan {
 			if _, ok := st.X.(*ast.SelectorExpr); !ok {
 				break
@@ -515,6 +530,205 @@ func (c *fileCtx) rewriteStmt(s ast.Stmt) []ast.Stmt {
 		}
 	}
 	return []ast.Stmt{s}
+}
+
+func (c *fileCtx) posKey(n ast.Node) string {
+	p := c.fset.Position(n.Pos())
+	return fmt.Sprintf("%s:%d:%d", c.path, p.Line, p.Column)
+}
+
+// mapRangeAt holds the positions ("file:line:col") of the range statements whose operand is a map,
+// as decided by go/types in findMapRanges.
+var mapRangeAt = map[string]bool{}
+
+// findMapRanges type-checks every package directory of the module (errors are tolerated: imports
+// from outside the module resolve to empty packages, which is enough to know whether a range
+// operand declared in the module is a map) and records the range statements over maps.
+func findMapRanges(root string) {
+	modPath := ""
+	if b, err := os.ReadFile(filepath.Join(root, "go.mod")); err == nil {
+		for _, l := range strings.Split(string(b), "\n") {
+			if strings.HasPrefix(l, "module ") {
+				modPath = strings.TrimSpace(strings.TrimPrefix(l, "module "))
+			}
+		}
+	}
+	fset := token.NewFileSet()
+	type pkgFiles struct {
+		files []*ast.File
+		done  *types.Package
+		busy  bool
+	}
+	dirs := map[string]*pkgFiles{}
+	filepath.Walk(root, func(path string, info os.FileInfo, err error) error {
+		if err != nil {
+			return nil
+		}
+		if info.IsDir() {
+			base := info.Name()
+			if path != root && (strings.HasPrefix(base, ".") || base == "testdata" || base == "vendor") {
+				return filepath.SkipDir
+			}
+			return nil
+		}
+		if !strings.HasSuffix(path, ".go") || strings.HasSuffix(path, "_test.go") {
+			return nil
+		}
+		f, err := parser.ParseFile(fset, path, nil, 0)
+		if err != nil {
+			return nil
+		}
+		d := filepath.Dir(path)
+		if dirs[d] == nil {
+			dirs[d] = &pkgFiles{}
+		}
+		dirs[d].files = append(dirs[d].files, f)
+		return nil
+	})
+	var check func(dir string) *types.Package
+	imp := importerFunc(func(path string) (*types.Package, error) {
+		if modPath != "" && (path == modPath || strings.HasPrefix(path, modPath+"/")) {
+			d := filepath.Join(root, strings.TrimPrefix(strings.TrimPrefix(path, modPath), "/"))
+			if p := check(d); p != nil {
+				return p, nil
+			}
+		}
+		name := path
+		if i := strings.LastIndex(path, "/"); i >= 0 {
+			name = path[i+1:]
+		}
+		p := types.NewPackage(path, name)
+		p.MarkComplete()
+		return p, nil
+	})
+	check = func(dir string) *types.Package {
+		pf := dirs[dir]
+		if pf == nil || pf.busy {
+			return nil
+		}
+		if pf.done != nil {
+			return pf.done
+		}
+		pf.busy = true
+		defer func() { pf.busy = false }()
+		info := &types.Info{Types: map[ast.Expr]types.TypeAndValue{}}
+		conf := types.Config{Importer: imp, Error: func(error) {}, FakeImportC: true}
+		name := "p"
+		if len(pf.files) > 0 {
+			name = pf.files[0].Name.Name
+		}
+		pkg, _ := conf.Check(name, fset, pf.files, info)
+		pf.done = pkg
+		for _, f := range pf.files {
+			ast.Inspect(f, func(n ast.Node) bool {
+				rs, ok := n.(*ast.RangeStmt)
+				if !ok {
+					return true
+				}
+				if tv, ok := info.Types[rs.X]; ok && isMapType(tv.Type) {
+					p := fset.Position(rs.Pos())
+					mapRangeAt[fmt.Sprintf("%s:%d:%d", p.Filename, p.Line, p.Column)] = true
+				}
+				return true
+			})
+		}
+		return pkg
+	}
+	for d := range dirs {
+		check(d)
+	}
+}
+
+type importerFunc func(path string) (*types.Package, error)
+
+func (f importerFunc) Import(path string) (*types.Package, error) { return f(path) }
+
+func isMapType(t types.Type) bool {
+	if t == nil {
+		return false
+	}
+	switch u := t.Underlying().(type) {
+	case *types.Map:
+		return true
+	case *types.Interface:
+		// a type parameter: a map if every term of its constraint is one
+		if tp, ok := t.(*types.TypeParam); ok {
+			iface, _ := tp.Constraint().Underlying().(*types.Interface)
+			if iface == nil {
+				return false
+			}
+			all, any := true, false
+			for i := 0; i < iface.NumEmbeddeds(); i++ {
+				switch e := iface.EmbeddedType(i).(type) {
+				case *types.Union:
+					for j := 0; j < e.Len(); j++ {
+						any = true
+						if _, ok := e.Term(j).Type().Underlying().(*types.Map); !ok {
+							all = false
+						}
+					}
+				default:
+					any = true
+					if _, ok := e.Underlying().(*types.Map); !ok {
+						all = false
+					}
+				}
+			}
+			return all && any
+		}
+		_ = u
+	}
+	return false
+}
+
+// rewriteMapRange turns `for k, v := range m { body }` over a map into an iteration over
+// simiter.Keys(m) (a seeded order). Forms it does not handle are left alone and reported.
+func (c *fileCtx) rewriteMapRange(st *ast.RangeStmt) []ast.Stmt {
+	if st.Tok != token.DEFINE && !(st.Key == nil && st.Value == nil) {
+		rep.MapRangesKept = append(rep.MapRangesKept, c.pos(st)+" (assignment form)")
+		return nil
+	}
+	if st.Key == nil && st.Value == nil {
+		return nil // `for range m`: only the count matters
+	}
+	tmpCounter++
+	mName := fmt.Sprintf("_simMap%d", tmpCounter)
+	okName := fmt.Sprintf("_simOk%d", tmpCounter)
+	isBlank := func(e ast.Expr) bool {
+		id, ok := e.(*ast.Ident)
+		return e == nil || (ok && id.Name == "_")
+	}
+	keyIdent := fmt.Sprintf("_simKey%d", tmpCounter)
+	if !isBlank(st.Key) {
+		id, ok := st.Key.(*ast.Ident)
+		if !ok {
+			rep.MapRangesKept = append(rep.MapRangesKept, c.pos(st)+" (key is not an identifier)")
+			return nil
+		}
+		keyIdent = id.Name
+	}
+	var pre []ast.Stmt
+	index := &ast.IndexExpr{X: ast.NewIdent(mName), Index: ast.NewIdent(keyIdent)}
+	if !isBlank(st.Value) {
+		if _, ok := st.Value.(*ast.Ident); !ok {
+			rep.MapRangesKept = append(rep.MapRangesKept, c.pos(st)+" (value is not an identifier)")
+			return nil
+		}
+		pre = append(pre, &ast.AssignStmt{Lhs: []ast.Expr{st.Value, ast.NewIdent(okName)}, Tok: token.DEFINE, Rhs: []ast.Expr{index}})
+	} else {
+		pre = append(pre, &ast.AssignStmt{Lhs: []ast.Expr{ast.NewIdent("_"), ast.NewIdent(okName)}, Tok: token.DEFINE, Rhs: []ast.Expr{index}})
+	}
+	pre = append(pre, &ast.IfStmt{Cond: &ast.UnaryExpr{Op: token.NOT, X: ast.NewIdent(okName)},
+		Body: &ast.BlockStmt{List: []ast.Stmt{&ast.BranchStmt{Tok: token.CONTINUE}}}})
+	c.usesIter = true
+	rep.MapRanges = append(rep.MapRanges, c.pos(st))
+	bind := &ast.AssignStmt{Lhs: []ast.Expr{ast.NewIdent(mName)}, Tok: token.DEFINE, Rhs: []ast.Expr{st.X}}
+	st.X = call("simiter", "Keys", ast.NewIdent(mName))
+	st.Key = ast.NewIdent("_")
+	st.Value = ast.NewIdent(keyIdent)
+	st.Tok = token.DEFINE
+	st.Body.List = append(pre, st.Body.List...)
+	return []ast.Stmt{bind, st}
 }
 
 func (c *fileCtx) rewriteGo(g *ast.GoStmt) []ast.Stmt {
